@@ -37,7 +37,7 @@ func (e *Encoder) Encode(v interface{}) error {
 // EncodeWithOption call Encode with EncodeOption.
 func (e *Encoder) EncodeWithOption(v interface{}, optFuncs ...EncodeOptionFunc) error {
 	ctx := encoder.TakeRuntimeContext()
-	ctx.Option.Flag = 0
+	initOption(ctx.Option)
 
 	err := e.encodeWithOption(ctx, v, optFuncs...)
 
@@ -48,7 +48,7 @@ func (e *Encoder) EncodeWithOption(v interface{}, optFuncs ...EncodeOptionFunc) 
 // EncodeContext call Encode with context.Context and EncodeOption.
 func (e *Encoder) EncodeContext(ctx context.Context, v interface{}, optFuncs ...EncodeOptionFunc) error {
 	rctx := encoder.TakeRuntimeContext()
-	rctx.Option.Flag = 0
+	initOption(rctx.Option)
 	rctx.Option.Flag |= encoder.ContextOption
 	rctx.Option.Context = ctx
 
@@ -63,7 +63,6 @@ func (e *Encoder) encodeWithOption(ctx *encoder.RuntimeContext, v interface{}, o
 		ctx.Option.Flag |= encoder.HTMLEscapeOption
 	}
 	ctx.Option.Flag |= encoder.NormalizeUTF8Option
-	ctx.Option.DebugOut = os.Stdout
 	for _, optFunc := range optFuncs {
 		optFunc(ctx.Option)
 	}
@@ -111,9 +110,17 @@ func (e *Encoder) SetIndent(prefix, indent string) {
 	e.enabledIndent = true
 }
 
+// initOption clears what an earlier user of the pooled context left in its
+// options and that the options of this call do not necessarily overwrite.
+func initOption(opt *encoder.Option) {
+	opt.Flag = 0
+	opt.DebugOut = os.Stdout
+	opt.DebugDOTOut = nil
+}
+
 func marshalContext(ctx context.Context, v interface{}, optFuncs ...EncodeOptionFunc) ([]byte, error) {
 	rctx := encoder.TakeRuntimeContext()
-	rctx.Option.Flag = 0
+	initOption(rctx.Option)
 	rctx.Option.Flag = encoder.HTMLEscapeOption | encoder.NormalizeUTF8Option | encoder.ContextOption
 	rctx.Option.Context = ctx
 	for _, optFunc := range optFuncs {
@@ -141,7 +148,7 @@ func marshalContext(ctx context.Context, v interface{}, optFuncs ...EncodeOption
 func marshal(v interface{}, optFuncs ...EncodeOptionFunc) ([]byte, error) {
 	ctx := encoder.TakeRuntimeContext()
 
-	ctx.Option.Flag = 0
+	initOption(ctx.Option)
 	ctx.Option.Flag |= (encoder.HTMLEscapeOption | encoder.NormalizeUTF8Option)
 	for _, optFunc := range optFuncs {
 		optFunc(ctx.Option)
@@ -168,7 +175,7 @@ func marshal(v interface{}, optFuncs ...EncodeOptionFunc) ([]byte, error) {
 func marshalNoEscape(v interface{}) ([]byte, error) {
 	ctx := encoder.TakeRuntimeContext()
 
-	ctx.Option.Flag = 0
+	initOption(ctx.Option)
 	ctx.Option.Flag |= (encoder.HTMLEscapeOption | encoder.NormalizeUTF8Option)
 
 	buf, err := encodeNoEscape(ctx, v)
@@ -192,7 +199,7 @@ func marshalNoEscape(v interface{}) ([]byte, error) {
 func marshalIndent(v interface{}, prefix, indent string, optFuncs ...EncodeOptionFunc) ([]byte, error) {
 	ctx := encoder.TakeRuntimeContext()
 
-	ctx.Option.Flag = 0
+	initOption(ctx.Option)
 	ctx.Option.Flag |= (encoder.HTMLEscapeOption | encoder.NormalizeUTF8Option | encoder.IndentOption)
 	for _, optFunc := range optFuncs {
 		optFunc(ctx.Option)
